@@ -40,6 +40,10 @@ def gen_case(rng):
         if not matrix:
             rng.shuffle(kk)
         terms[tuple(kk)] = rng.choice([-2, -1, 1, 1, 2]) if not halves else rng.choice([-1.5, -0.5, 0.5, 1, 1.5])
+    if terms and rng.random() < 0.15:
+        # widely separated magnitudes: near-ties must not be treated as ties
+        k0 = rng.choice(sorted(terms, key=str))
+        terms[k0] = rng.choice([-1000000, 1000000, 250000.5])
     if rng.random() < 0.5:
         terms[()] = rng.choice([-3, 2, 0.5])
     if kind == "dict" and labels and rng.random() < 0.2:
